@@ -145,6 +145,11 @@ def s_block(const, inside=False):
     return {"k": "block", "const": const, "inside": inside}
 
 
+def s_clsref(cid):
+    """The class is handed over by name to an untracked runner that instantiates it and calls its method."""
+    return {"k": "clsref", "cls": cid}
+
+
 def s_clsattr(cid):
     """Reads a class-level constant through the class name (no instance, no call): x = K.LEVEL"""
     return {"k": "clsattr", "cls": cid}
@@ -436,6 +441,8 @@ def _render_fn_lines(p, fid, ctx, prelude):
         elif k == "method":
             c = p["classes"][s["cls"]]
             lines.append("    x%d = %s(%s).%s()" % (i, ctx.cls_expr(s["cls"]), s["arg"], c["method"]))
+        elif k == "clsref":
+            lines.append("    x%d = vlog.run_cls(%s)" % (i, ctx.cls_expr(s["cls"])))
         elif k == "clsattr":
             lines.append("    x%d = %s.LEVEL" % (i, ctx.cls_expr(s["cls"])))
         elif k == "block":
@@ -560,7 +567,7 @@ def refs_of(p, fid, runtime=False):
                 out.append(a["fn"])
         if s["k"] in ("call", "keep", "ref") or (s["k"] == "nested_def" and s.get("fn")):
             out.append(s["fn"])
-        if s["k"] == "method" or (s["k"] == "clsattr" and not runtime):
+        if s["k"] in ("method", "clsref") or (s["k"] == "clsattr" and not runtime):
             # a class is one unit: a function that refers to it depends on everything its body refers to
             c = p["classes"][s["cls"]]
             if c.get("calls"):
@@ -614,7 +621,7 @@ def _own_items(p, fid, memo, stack=(), externals=None):
             if s["k"] == "nested_def" and s.get("var"):
                 v = p["vars"][s["var"]]
                 items.append(("V", v["module"], v["name"], v["value"]))
-            if s["k"] in ("method", "clsattr"):
+            if s["k"] in ("method", "clsattr", "clsref"):
                 c = p["classes"][s["cls"]]
                 items.append(("C", c["name"], render_cls_nomod(p, s["cls"])))
                 if c.get("var"):
